@@ -118,6 +118,11 @@ func VerifC05Value() {
 	out, err = vRender(mb+"{{- 1 }}|{{ m }}{{- s }}|"+mb+"{%- if true %}y{% endif %}", Bindings{"s": s, "m": mb})
 	want := mb + "1|" + mb
 	nd.Assert(err == nil && len(out) >= len(want) && out[:len(want)] == want && out[len(out)-len(mb)-1:] == mb+"y", "multibyte-text-survives-a-left-hyphen")
+	// a value is data, not a format: percent signs, verbs and escapes in it are printed as they are,
+	// also behind a pointer, inside a printed array and as a []byte
+	pv := []string{"50%% off", "a%20b", "%d%s%v", "100%", "%!x(MISSING)", "\\n%\\t"}[nd.Choice(6)]
+	out, err = vRender("{{ p }}|{{ q }}|{{ l }}|{{ by }}|{{ p | append: p }}", Bindings{"p": pv, "q": &pv, "l": []any{pv, pv}, "by": []byte(pv)})
+	nd.Assert(err == nil && out == pv+"|"+pv+"|"+pv+pv+"|"+pv+"|"+pv+pv, "value-with-percent-signs-emitted-exactly")
 	// hyphens directly next to a value or to a raw body have no literal text to trim: the value and
 	// the body are still emitted exactly, whatever whitespace they begin or end with
 	out, err = vRender("[{{ e -}}{{ s }}{{- e }}]{% assign a = 1 -%}{{ s }}{%- assign b = 2 %}[{{ e -}}{% raw %} \n{{x}} \t{% endraw %}{{- e }}]", Bindings{"s": s, "e": ""})
